@@ -576,5 +576,75 @@ theorem cellStepNdG_refines (km : KModel α) {h : Heap α} {inputs states output
       · rintro ⟨hu, hq1, hq2⟩
         exact hns ⟨hu, q - (sb + i * nS), by omega, by omega⟩
 
+/-! ### the property statements, proved here so that the run-level helpers can use them -/
+
+/-- closed form of the list-level column (statement and comments: `OW.Props.C04NdTables.cellParams_tables`) -/
+theorem cellParams_tables_eq (spec : ParamSpec) (lay : List (Nat × Nat)) (params : List (List α)) (i : Nat)
+    (wf : SpecWF spec)
+    (hS : ∀ (j row sz : Nat), spec[j]? = some none → lay[j]? = some (row, sz) → (Props.C04.pick params i row).isSome)
+    (hT : ∀ (j k row sz : Nat), spec[j]? = some (some k) → lay[j]? = some (row, sz) →
+      (ownLenZ params i (rowOf lay k)).toNat ≤ sz ∧
+      ∀ r, r < (ownLenZ params i (rowOf lay k)).toNat → (Props.C04.pick params i (row + r)).isSome) :
+    cellParams spec lay params i = .ok ((spec.zip lay).flatMap (entries params lay i)) := by
+  unfold cellParams
+  rw [cellParams_go_tables params i spec lay wf hS hT (spec.zip lay) [] [] [] rfl rfl (fun k hk => by simp at hk)]
+  simp
+
+/-- view-level decoding = list-level decoding (statement and comments: `OW.Props.C04NdTables.param_decoding_tables`) -/
+theorem param_decoding_tables_eq {h : Heap α} {parameters : Arr} {rows nSets pb i : Nat} {pst : List α}
+    (rp : RootOn h parameters [(rows : Int), (nSets : Int)]) (hpb : parameters.base = (pb : Int))
+    (hp : h[parameters.sid]? = some pst) (spec : ParamSpec) (lay : List (Nat × Nat)) (wf : SpecWF spec)
+    (hS : ∀ (j row sz : Nat), spec[j]? = some none → lay[j]? = some (row, sz) → row < rows)
+    (hT : ∀ (j k row sz : Nat), spec[j]? = some (some k) → lay[j]? = some (row, sz) →
+      1 ≤ sz ∧ row + sz ≤ rows ∧ (ownLenZ (mat pst pb rows nSets) i (rowOf lay k)).toNat ≤ sz) :
+    decodeNd h parameters (i : Int) (spec.zip lay) [] [] =
+        .ok ((spec.zip lay).flatMap (entries (mat pst pb rows nSets) lay i)) ∧
+    cellParams spec lay (mat pst pb rows nSets) i =
+        .ok ((spec.zip lay).flatMap (entries (mat pst pb rows nSets) lay i)) := by
+  constructor
+  · rw [decodeNd_go_refines rp hpb hp spec lay wf hS hT (spec.zip lay) [] [] [] rfl rfl (fun k hk => by simp at hk)]
+    simp
+  · apply cellParams_tables_eq spec lay _ i wf
+    · intro j row sz hsp hly
+      obtain ⟨y, _, hy⟩ := scalar_pick (i := i) rp hpb hp (hS j row sz hsp hly)
+      rw [hy]; rfl
+    · intro j k row sz hsp hly
+      obtain ⟨hsz, hfit, hown⟩ := hT j k row sz hsp hly
+      obtain ⟨_, _, _, hpk⟩ := table_pick (i := i) (ownLenZ (mat pst pb rows nSets) i (rowOf lay k)) rp hpb hp hsz hfit hown
+      exact ⟨hown, hpk⟩
+
+/-- one cell step with table parameters (statement and comments: `OW.Props.C04NdTables.wrapperNd_refines_tables`) -/
+theorem cellStepNdT_refines (km : KModel α) {h : Heap α} {parameters inputs states outputs : Arr}
+    {rows nSets nIn nI T N nS M nO T' i pb ib sb ob : Nat} {pst ist sst ost : List α}
+    (rp : RootOn h parameters [(rows : Int), (nSets : Int)])
+    (ri : RootOn h inputs [(nIn : Int), (nI : Int), (T : Int)])
+    (rs : RootOn h states [(N : Int), (nS : Int)])
+    (ro : RootOn h outputs [(M : Int), (nO : Int), (T' : Int)])
+    (hpb : parameters.base = (pb : Int)) (hib : inputs.base = (ib : Int)) (hsb : states.base = (sb : Int))
+    (hob : outputs.base = (ob : Int))
+    (hp : h[parameters.sid]? = some pst) (hi : h[inputs.sid]? = some ist)
+    (hs : h[states.sid]? = some sst) (ho : h[outputs.sid]? = some ost)
+    (hso : states.sid ≠ outputs.sid) (hiN : i < N) (hiM : i < M) (hT : T ≤ T')
+    {rd : RunDims} (hrd : runDims inputs states outputs = .ok rd)
+    (hK : ∀ p ins st r, km.run p ins st = .ok r →
+      r.outputs.length ≤ nO ∧ (∀ ser ∈ r.outputs, ser.length ≤ T) ∧ r.states.length ≤ nS)
+    (spec : ParamSpec) (lay : List (Nat × Nat)) (wf : SpecWF spec)
+    (hSc : ∀ (j row sz : Nat), spec[j]? = some none → lay[j]? = some (row, sz) → row < rows)
+    (hTb : ∀ (j k row sz : Nat), spec[j]? = some (some k) → lay[j]? = some (row, sz) →
+      1 ≤ sz ∧ row + sz ≤ rows ∧ (ownLenZ (mat pst pb rows nSets) i (rowOf lay k)).toNat ≤ sz) :
+    (∀ e, cellStep km spec lay (mat pst pb rows nSets) (cube ist ib nIn nI T) i (rowAt sst (sb + i * nS) nS)
+          (mat ost (ob + i * (nO * T')) nO T') = .error e →
+        cellStepNdT km.run spec lay nI h parameters inputs states outputs rd (i : Int) = .error e) ∧
+    (∀ s' o', cellStep km spec lay (mat pst pb rows nSets) (cube ist ib nIn nI T) i (rowAt sst (sb + i * nS) nS)
+          (mat ost (ob + i * (nO * T')) nO T') = .ok (s', o') →
+      ∃ h', cellStepNdT km.run spec lay nI h parameters inputs states outputs rd (i : Int) = .ok h' ∧ SameShape h h' ∧
+        (∀ s, s < nS → cell h' states.sid (sb + i * nS + s) = s'[s]?) ∧
+        (∀ o t, o < nO → t < T' → cell h' outputs.sid (ob + (i * nO + o) * T' + t) = (o'[o]?).bind (·[t]?)) ∧
+        (∀ u q, ¬ (u = states.sid ∧ ∃ s, s < nS ∧ q = sb + i * nS + s) →
+                ¬ (u = outputs.sid ∧ ∃ o t, o < nO ∧ t < T' ∧ q = ob + (i * nO + o) * T' + t) →
+                cell h' u q = cell h u q)) := by
+  obtain ⟨hdec, hcp⟩ := param_decoding_tables_eq (i := i) rp hpb hp spec lay wf hSc hTb
+  exact cellStepNdG_refines km ri rs ro hib hsb hob hi hs ho hso hiN hiM hT hrd hK spec lay _ _ _ hdec hcp
+
 end
 end OW.WrapperNd
